@@ -118,12 +118,16 @@ def _finalize(c):
     c.ensures('B_is_an_output_connection_of_A_exactly_if_A_is_an_input_connection_of_B', ForAll([a, b], oc[a][b] == ic[b][a]))
     c.ensures('every_combinational_block_given_by_the_user_has_resolved_and_connected_inputs',
               ForAll([b], Implies(And(member(c.S, me, b), calls.inst_of(b, CB)), connected_inputs(c.T, me, b))))
+    c.ensures('an_input_connection_of_a_user_block_that_is_not_an_inverter_is_one_of_its_inputs',
+              ForAll([a, b], Implies(And(member(c.S, me, b), calls.inst_of(b, CB), Not(calls.inst_of(b, NOT)), ic[b][a]), fed(c.T, a, b))))
     at2 = c.T.g('blocks_at_second_pass')
     c.ensures('qf:a_second_pass_over_the_inverters_takes_place', BoolVal(at2 is not None))       # the first pass may create inverter blocks
     if at2 is not None:
         reg2 = lambda r: And(calls.inst_of(r, BL()), OI.is_Some(at2[c.pre('name', r)]), OI.v(at2[c.pre('name', r)]) == r)
         c.ensures('every_inverter_existing_when_the_second_pass_starts_has_resolved_and_connected_inputs',
                   ForAll([b], Implies(And(reg2(b), calls.inst_of(b, NOT)), connected_inputs(c.T, me, b))))
+        c.ensures('an_input_connection_of_an_inverter_created_by_a_shortcut_is_its_input',
+                  ForAll([a, b], Implies(And(reg2(b), calls.inst_of(b, NOT), Not(member(c.S, me, b)), ic[b][a]), fed(c.T, a, b))))
 
 
 def all_resolved(st, me, arr, n):
@@ -181,6 +185,21 @@ def ai_append(ex, e, st):
         s1 = s1.copy(); arr, n = seq_of(s1.env['all_inputs'], s1); x = to_val(vals[0], s1)
         s1.env['all_inputs'] = PSeq(Store(arr, n, x), n + 1, 'val', True)
         s1.ghost['pos'] = Store(s1.ghost['pos'], x, n)
+        s1.ghost['src_key'] = Store(s1.ghost['src_key'], n, ex.as_str(s1, s1.env['iname'])); s1.ghost['src_j'] = Store(s1.ghost['src_j'], n, IntVal(-1))
+        outs.append((s1, P_NONE))
+    return outs
+
+
+def ai_extend(ex, e, st):
+    """all_inputs.extend(newgroup) + ghost: every new item comes from the input name being visited, at its place in the group"""
+    outs = []
+    for s1, vals in ex.evs(e.args, st):
+        s1 = s1.copy(); arr, n = seq_of(s1.env['all_inputs'], s1); arr2, n2 = seq_of(vals[0], s1)
+        j = Int('j!ae')
+        s1.env['all_inputs'] = PSeq(z3.Lambda([j], If(j < n, asel(arr, j), asel(arr2, j - n))), n + n2, 'val', True)
+        key = ex.as_str(s1, s1.env['iname'])
+        s1.ghost['src_key'] = z3.Lambda([j], If(And(n <= j, j < n + n2), key, s1.ghost['src_key'][j]))
+        s1.ghost['src_j'] = z3.Lambda([j], If(And(n <= j, j < n + n2), j - n, s1.ghost['src_j'][j]))
         outs.append((s1, P_NONE))
     return outs
 
@@ -198,6 +217,57 @@ def group_append(ex, e, st):
     return outs
 
 
+def positions_valid(pos, arr, n):
+    i = Int('i!pvv')
+    return ForAll([i], Implies(And(0 <= i, i < n), in_list(pos, arr, n)(asel(arr, i))))
+
+
+def fed(st, a, b):
+    """A feeds one of B's inputs: the block A is the value, or a member of the group, given for one of B's input names"""
+    kk, j = Const('k!fd', StringSort()), Int('j!fd')
+    ins = st.f('inputs', b); v = OV.v(ins[kk]); t = Val.tk(v)
+    return Exists([kk], And(OV.is_Some(ins[kk]), Or(And(Not(Val.is_T(v)), v == Val.Obj(a)),
+                                                   And(Val.is_T(v), Exists([j], And(0 <= j, j < tup_len(t), tup_item(t, j) == Val.Obj(a)))))))
+
+
+def fed_at(st, a, b, k, j):
+    """`fed` with the witnesses given: input name k (and group position j, or j < 0 for a single value)"""
+    ins = st.f('inputs', b); v = OV.v(ins[k]); t = Val.tk(v)
+    return And(OV.is_Some(ins[k]), If(j < 0, And(Not(Val.is_T(v)), v == Val.Obj(a)), And(Val.is_T(v), 0 <= j, j < tup_len(t), tup_item(t, j) == Val.Obj(a))))
+
+
+WK = ArraySort(IntSort(), ArraySort(IntSort(), StringSort())); WJ = ArraySort(IntSort(), ArraySort(IntSort(), IntSort()))
+
+
+def iconn_add(ex, e, st):
+    """blk.iconnections.add(inp) + ghost: remember which input name (and group position) made this connection"""
+    outs = []
+    for s1, vals in ex.evs(e.args, st):
+        s1 = s1.copy(); blk = s1.env['blk'].z; x = to_val(vals[0], s1); a = Val.ref(x)
+        # quantifier-free: what is connected is the collected input being handled (nothing else ever becomes an input connection)
+        from pyvc.sorts import has_quant
+        slim = s1.copy(); slim.pc = [f for f in s1.pc if not has_quant(f)]
+        ex.oblige('call:iconnections.add/pre:only_the_collected_input_being_handled_is_connected', slim, x == to_val(s1.env['inp'], s1), kind='pre')
+        ic = s1.comp('iconnections', RefSet)
+        s1.heap['iconnections'] = Store(ic, blk, Store(ic[blk], a, BoolVal(True)))
+        g = s1.ghost; i = g['pos'][x]
+        g['w_key'] = Store(g['w_key'], blk, Store(g['w_key'][blk], a, g['src_key'][i]))
+        g['w_j'] = Store(g['w_j'], blk, Store(g['w_j'][blk], a, g['src_j'][i]))
+        outs.append((s1, P_NONE))
+    return outs
+
+
+def provenance(st, blk, arr, n, done=None):
+    """ghost provenance of the collected inputs: item i is the value of input name src_key[i], or its src_j[i]-th group member"""
+    i = Int('i!pv')
+    g = st.st.ghost
+    ins = st.f('inputs', blk)
+    k = g['src_key'][i]; jj = g['src_j'][i]
+    v = OV.v(ins[k]); t = Val.tk(v)
+    return ForAll([i], Implies(And(0 <= i, i < n), And(done[k] if done is not None else BoolVal(True), OV.is_Some(ins[k]),
+                   If(jj < 0, And(Not(Val.is_T(v)), v == asel(arr, i)), And(Val.is_T(v), jj < tup_len(t), tup_item(t, jj) == asel(arr, i))))))
+
+
 def inv_blocks(lc):
     me = as_kind(lc.pre.args['self'], Ref())
     b = Int('b!ib')
@@ -208,6 +278,14 @@ def inv_blocks(lc):
                                                                                                           lc.st.whole('iconnections')[b][Int('a!ib')]))),
                                    ('inputs_of_blocks_not_processed_in_this_pass_are_untouched',
                                     ForAll([b], Implies(And(member(lc.entry, me, b), Not(lc.done[b])), lc.st.whole('inputs')[b] == lc.entry.whole('inputs')[b]))),
+                                   ('blocks_not_yet_processed_in_this_pass_have_no_new_input_connection',
+                                    ForAll([b], Implies(Not(lc.done[b]), And(lc.st.whole('iconnections')[b] == lc.entry.whole('iconnections')[b],
+                                                                             lc.st.st.ghost['w_key'][b] == lc.entry.st.ghost['w_key'][b],
+                                                                             lc.st.st.ghost['w_j'][b] == lc.entry.st.ghost['w_j'][b])))),
+                                   ('input_connections_of_processed_blocks_come_from_their_inputs',
+                                    ForAll([b, Int('a!ib2')], Implies(And(lc.done[b], lc.st.whole('iconnections')[b][Int('a!ib2')],
+                                                                          Not(lc.entry.whole('iconnections')[b][Int('a!ib2')])),
+                                                                      fed_at(lc.st, Int('a!ib2'), b, lc.st.st.ghost['w_key'][b][Int('a!ib2')], lc.st.st.ghost['w_j'][b][Int('a!ib2')])))),
                                    ('processed_blocks_have_resolved_and_connected_inputs', ForAll([b], Implies(lc.done[b], connected_inputs(lc.st, me, b))))]
 
 
@@ -231,7 +309,11 @@ def inv_items(lc):
             [('list_length', ai_n >= 0), ('collected_inputs_are_resolved', all_resolved(lc.st, me, ai_arr, ai_n)),
              ('the_block_being_processed', And(blk == lc.entry.st.env['blk'].z, member(lc.st, me, blk))),
              ('visited_inputs_are_resolved_and_collected', ForAll([kk], Implies(lc.done[kk], And(OV.is_Some(ins[kk]), input_ok(lc.st, me, OV.v(ins[kk]), in_list(lc.st.st.ghost['pos'], ai_arr, ai_n)))))),
-             ('other_inputs_are_as_given', ForAll([kk], Implies(Not(lc.done[kk]), ins[kk] == ins0[kk])))])
+             ('other_inputs_are_as_given', ForAll([kk], Implies(Not(lc.done[kk]), ins[kk] == ins0[kk]))),
+             ('every_collected_input_comes_from_a_visited_input', provenance(lc.st, blk, ai_arr, ai_n, lc.done)),
+             ('every_collected_input_knows_a_position', positions_valid(lc.st.st.ghost['pos'], ai_arr, ai_n)),
+             ('no_connection_is_made_while_the_inputs_are_resolved', And(lc.st.whole('iconnections') == lc.entry.whole('iconnections'),
+                                                                         lc.st.st.ghost['w_key'] == lc.entry.st.ghost['w_key'], lc.st.st.ghost['w_j'] == lc.entry.st.ghost['w_j']))])
 
 
 def _group_positions(lc, ai_arr, ai_n, res):
@@ -258,7 +340,9 @@ def inv_group(lc):
     blk = lc.st.st.env['blk'].z
     return (G(lc.pre, lc.st, me) + frame(lc.entry, lc.st, me, blk, inputs_of_blk_too=True) +
             _group_positions(lc, ai_arr, ai_n, res) +
-            [('lengths', And(res.n == lc.i, ai_n >= 0)), ('group_members_so_far_are_resolved', all_resolved(lc.st, me, res.arr, res.n)),
+            [('no_connection_is_made_while_the_inputs_are_resolved', And(lc.st.whole('iconnections') == lc.entry.whole('iconnections'),
+                                                                        lc.st.st.ghost['w_key'] == lc.entry.st.ghost['w_key'], lc.st.st.ghost['w_j'] == lc.entry.st.ghost['w_j'])),
+             ('lengths', And(res.n == lc.i, ai_n >= 0)), ('group_members_so_far_are_resolved', all_resolved(lc.st, me, res.arr, res.n)),
              ('collected_inputs_are_resolved', all_resolved(lc.st, me, ai_arr, ai_n)),
              ('the_block_being_processed', And(blk == lc.entry.st.env['blk'].z, member(lc.st, me, blk)))])
 
@@ -283,7 +367,20 @@ def inv_connect(lc):
             [('collected_inputs_are_resolved', all_resolved(lc.st, me, lc.arr, lc.n)),
              ('the_block_being_processed', blk == lc.entry.st.env['blk'].z),
              ('inputs_and_registrations_untouched', And(lc.st.whole('inputs') == lc.entry.whole('inputs'), lc.st.whole('_blocks') == lc.entry.whole('_blocks'))),
-             ('collected_inputs_handled_so_far_are_connected', ForAll([i], Implies(And(0 <= i, i < lc.i), linked(asel(lc.arr, i)))))])
+             ('collected_inputs_handled_so_far_are_connected', ForAll([i], Implies(And(0 <= i, i < lc.i), linked(asel(lc.arr, i))))),
+             ('ghosts_untouched', And(lc.st.st.ghost['pos'] == lc.entry.st.ghost['pos'], lc.st.st.ghost['src_key'] == lc.entry.st.ghost['src_key'],
+                                      lc.st.st.ghost['src_j'] == lc.entry.st.ghost['src_j'])),
+             ('new_input_connections_of_this_block_are_collected_inputs',
+              ForAll([Int('a!i4')], Implies(And(ic[blk][Int('a!i4')], Not(lc.entry.whole('iconnections')[blk][Int('a!i4')])),
+                                            in_list(lc.st.st.ghost['pos'], lc.arr, lc.n)(Val.Obj(Int('a!i4')))))),
+             ('new_input_connections_of_this_block_know_where_they_come_from',
+              ForAll([Int('a!i5')], Implies(And(ic[blk][Int('a!i5')], Not(lc.entry.whole('iconnections')[blk][Int('a!i5')])),
+                                            fed_at(lc.st, Int('a!i5'), blk, lc.st.st.ghost['w_key'][blk][Int('a!i5')], lc.st.st.ghost['w_j'][blk][Int('a!i5')])))),
+             ('witnesses_of_other_blocks_untouched', ForAll([Int('b!i5')], Implies(Int('b!i5') != blk,
+                                                      And(lc.st.st.ghost['w_key'][Int('b!i5')] == lc.entry.st.ghost['w_key'][Int('b!i5')],
+                                                          lc.st.st.ghost['w_j'][Int('b!i5')] == lc.entry.st.ghost['w_j'][Int('b!i5')])))),
+             ('input_connections_of_other_blocks_untouched', ForAll([Int('b!i4')], Implies(Int('b!i4') != blk,
+                                                              ic[Int('b!i4')] == lc.entry.whole('iconnections')[Int('b!i4')])))])
 
 
 def verify_finalize(run):
@@ -301,6 +398,8 @@ def _verify_finalize_body(run):
     run.verify('Circuit._finalize', cls='Circuit',
                invariants={'for blk in list(self.getblocks(btype))': inv_blocks, 'for (iname, inp) in blk.inputs.items()': inv_items,
                            'comp:for i in inp': inv_group, 'for inp in all_inputs': inv_connect},
-               ghost={'pos': K(Val, IntVal(-1)), 'blocks_at_second_pass': None},
+               ghost={'pos': K(Val, IntVal(-1)), 'blocks_at_second_pass': None, 'src_key': K(IntSort(), StringVal('')), 'src_j': K(IntSort(), IntVal(-1)),
+                      'w_key': K(IntSort(), K(IntSort(), StringVal(''))), 'w_j': K(IntSort(), K(IntSort(), IntVal(-1)))},
                calls={'validate_output': validate_output_call, 'list': list_snapshot, 'self.getblocks': blocks_of_type,
-                      'all_inputs.append': ai_append, '_comp_result.append': group_append})
+                      'all_inputs.append': ai_append, 'all_inputs.extend': ai_extend, '_comp_result.append': group_append,
+                      'blk.iconnections.add': iconn_add})
